@@ -266,6 +266,9 @@ impl Zone {
         }
 
         if other.soa.is_some() {
+            // the SOA record of the zone being replaced must not
+            // survive the union of the records
+            self.records.this.remove(&RecordType::SOA);
             self.soa = other.soa;
         }
 
